@@ -654,6 +654,24 @@ fn many_recipients(rep: &mut Report, ctx: &Ctx, rng: &mut Rng) {
             rep.violation("oracle", "C07/recipient", json!({"check":"non-recipient-refused","many":true}), &format!("archive for {n} recipients opens for a stranger"), case.clone());
             return;
         }
+        // "in any position among other candidate keys": a long key ring (recipients x candidates above 2^16 pairs)
+        // with the one valid key last, and in the middle
+        if n >= 85 {
+            let k = 70_000 / n + 5;
+            let mut ring: Vec<[u8; 32]> = (0..k).map(|_| rand_key(rng)).collect();
+            for pos in [k - 1, k / 2] {
+                let saved = ring[pos];
+                ring[pos] = recs[n - 1];
+                let got = open_with(&m.bytes, &ring, "doc");
+                ring[pos] = saved;
+                rep.count("recipients:many-x-long-key-ring");
+                if got.as_ref().ok() != Some(&content) {
+                    rep.violation("oracle", "C07/recipient", json!({"check":"recipient-opens","many":true,"ring":true}),
+                        &format!("archive for {n} recipients: the key of a recipient at position {pos} of a ring of {k} candidate keys does not open it ({:?})", got.as_ref().map(|v| v.len())), case.clone());
+                    return;
+                }
+            }
+        }
     }
 }
 
